@@ -495,5 +495,5 @@ func checkCase(c Case) error {
 func TestFirewall(t *testing.T) { vt.Run(t, prop, "TestFirewall", genCase, checkCase) }
 
 func TestReplay(t *testing.T) {
-	vt.Replay(t, map[string]func(json.RawMessage) error{"TestFirewall": vt.Decode(checkCase)})
+	vt.Replay(t, map[string]func(json.RawMessage) error{"TestFirewall": vt.Decode(checkCase), "TestParallel": vt.Decode(checkParallel)})
 }
